@@ -69,8 +69,8 @@ var rR16g = RuleRef{Name: "R16g", Doc: "Raft core guards (pinned mechanisms, not
 		c.Add("R16g", "raft", "writers of "+key+" are the reviewed ones", token.NoPos, len(extra) == 0 && len(got) > 0, fmt.Sprintf("writers found: %v; not reviewed: %v", got, extra))
 	}
 	obs := []ordOb{
-		{Pkg: raftPkg, Fn: "raftLog.commitTo", At: "store:committed", AllEdges: true, NeedAll: []string{"T|cmp:committed<tocommit"}, What: "the commit index is only ever raised"},
-		{Pkg: raftPkg, Fn: "raftLog.maybeCommit", At: "call:commitTo", AllEdges: true, NeedAll: []string{"T|cmp:maxIndex>committed", "T|cmp:zeroTermOnErrCompacted()==term"}, What: "an index is committed by counting only if its entry carries the given (current) term"},
+		{Pkg: raftPkg, Fn: "raftLog.commitTo", At: "store:committed", AllEdges: true, NeedAll: []string{"T|cmp:committed<p1"}, What: "the commit index is only ever raised"},
+		{Pkg: raftPkg, Fn: "raftLog.maybeCommit", At: "call:commitTo", AllEdges: true, NeedAll: []string{"T|cmp:p1>committed", "T|cmp:zeroTermOnErrCompacted()==p2"}, What: "an index is committed by counting only if its entry carries the given (current) term"},
 		{Pkg: raftPkg, Fn: "raftLog.maybeAppend", At: "call:append", AllEdges: true, NeedAll: []string{"T|call:matchTerm", "F|cmp:findConflict()==0", "F|cmp:findConflict()<=committed"}, What: "a conflicting suffix is replaced only above the commit index and only when the previous entry matches"},
 		{Pkg: raftPkg, Fn: "raftLog.append", At: "call:truncateAndAppend", AllEdges: true, NeedAll: []string{"F|cmp:?<committed"}, What: "append never truncates at or below the commit index"},
 		{Pkg: raftPkg, Fn: "raft.loadState", At: "store:committed", AllEdges: true, NeedAll: []string{"F|cmp:Commit<committed", "F|cmp:Commit>lastIndex()"}, What: "a loaded commit index lies within [committed, lastIndex]"},
@@ -115,7 +115,7 @@ var rR16g = RuleRef{Name: "R16g", Doc: "Raft core guards (pinned mechanisms, not
 		for _, b := range fn.Blocks {
 			for _, in := range b.Instrs {
 				if call, isC := in.(*ssa.Call); isC && callName(call) == "maybeCommit" && len(call.Call.Args) >= 3 {
-					ok = canon(call.Call.Args[2]) == "r.Term"
+					ok = canon(call.Call.Args[2]) == "recv.Term"
 				}
 			}
 		}
@@ -162,12 +162,12 @@ var rR16g = RuleRef{Name: "R16g", Doc: "Raft core guards (pinned mechanisms, not
 			for _, in := range b.Instrs {
 				switch x := in.(type) {
 				case *ssa.Store:
-					if fa, ok := x.Addr.(*ssa.FieldAddr); ok && fieldName(fa) == "Vote" && canon(x.Val) == "r.id" {
+					if fa, ok := x.Addr.(*ssa.FieldAddr); ok && fieldName(fa) == "Vote" && canon(x.Val) == "recv.id" {
 						selfVote = true
 					}
 				case *ssa.Call:
 					if callName(x) == "reset" && len(x.Call.Args) >= 2 {
-						if bo, ok := x.Call.Args[1].(*ssa.BinOp); ok && bo.Op == token.ADD && canon(bo.X) == "r.Term" {
+						if bo, ok := x.Call.Args[1].(*ssa.BinOp); ok && bo.Op == token.ADD && canon(bo.X) == "recv.Term" {
 							if k, ok := constInt(bo.Y); ok && k == 1 {
 								termPlus = true
 							}
